@@ -27,6 +27,7 @@ EXHAUSTIVE_DOMAINS = {
     'int_lattice': 'Int(min,max) over {None,0,1,2}^2 x noneable x frozen(default=min-ish): all ordered pairs',
     'list_lattice': 'List(Int, min_size, max_size) over {0,1,2} x {None,0,1,2} x noneable: all ordered pairs',
     'vtuple_lattice': 'variable-length Tuple(Int, min_size, max_size) over {0,1,2} x {None,0,1,2,3}: all ordered pairs',
+    'dict_keys_lattice': 'Dict specs over named keys {none, a, a + defaulted b} x free-key field {none, Int, Str}: all ordered pairs',
     'enum_vs_int': 'base Int(min,max) over {None,0,1,2}^2 x child Enum over every non-empty subset of {-1,0,1,2,3}',
     'sized_tuple_vs_fixed': 'base fixed Tuple of 2-3 Int positions with ranges from {none, >=0, <=1, 1..2} x child Tuple(Int, size=n)',
     'frozen_enum_base': 'base Enum([0,1,2]) frozen at i x child (Enum / Int / smaller Enum) frozen at j, all i, j',
@@ -36,7 +37,7 @@ EXHAUSTIVE_DOMAINS = {
 }
 REJECT = (TypeError, ValueError, KeyError)
 DERIVE = ['same', 'min+', 'min-', 'max+', 'max-', 'nomin', 'nomax', 'noneable', 'default', 'frozen',
-          'size+', 'size-', 'elem', 'enum-', 'enum+', 'field+', 'field-', 'cand+', 'kind', 'inner', 'to-enum', 'nomaxsize', 'redefault', 'xform']
+          'size+', 'size-', 'elem', 'enum-', 'enum+', 'field+', 'field-', 'cand+', 'kind', 'inner', 'to-enum', 'nomaxsize', 'redefault', 'xform', 'dyn']
 
 
 OVERLAP_VALUES = [True, False, -1, 0, 1, 2, 3, 's']
@@ -162,7 +163,15 @@ def exhaustive(tier):
         yield {'ufc': {'frozen': fv, 'child': child, 'child_frozen': None}}
       for cv in (0, 1, 2):
         yield {'ufc': {'frozen': fv, 'child': 'int_frozen', 'child_frozen': cv}}
-  return {'int_lattice': pairs(ints()), 'list_lattice': pairs(lists()), 'vtuple_lattice': pairs(vtuples()),
+  def dict_keys():
+    named = [[], [['a', {'t': 'int', 'min': None, 'max': None}]],
+             [['a', {'t': 'int', 'min': None, 'max': None}], ['b', {'t': 'str', 'default': [0]}]]]
+    dyns = [None, {'t': 'int', 'min': None, 'max': None}, {'t': 'str'}]
+    descs = [{'t': 'dict', 'fields': copy.deepcopy(f), 'dyn': copy.deepcopy(dy)} for f in named for dy in dyns]
+    dvals = [[w, c] for w in (0, 1) for c in ([0], [1], [2], [1, 1, 1], [2, 2, 2, 2], [0, 2, 1, 0], [0, 0, 2, 1], [0, 0, 1, 2], [1, 0, 2, 2])]
+    for x, y in itertools.product(descs, repeat=2):
+      yield {'a': x, 'derive': [], 'other': y, 'values': dvals + [[2, [0]], [3, [0]]]}
+  return {'int_lattice': pairs(ints()), 'list_lattice': pairs(lists()), 'vtuple_lattice': pairs(vtuples()), 'dict_keys_lattice': dict_keys(),
           'enum_vs_int': enums(), 'union_overlap': overlaps(), 'union_frozen_candidate': ufcs(), 'frozen_enum_base': frozen_enums(),
           'sized_tuple_vs_fixed': sized_tuples()}
 
@@ -272,6 +281,10 @@ def _derive(d, kind, arg):
       if n not in used:
         d['fields'].append([n, {'t': 'int', 'min': None, 'max': None, 'default': [0]} if arg % 2 else {'t': 'str'}])
         break
+    return d
+  if kind == 'dyn' and t == 'dict':
+    # the same named keys with / without a field for free string keys
+    d['dyn'] = None if d.get('dyn') is not None else ({'t': 'float', 'min': None, 'max': None} if arg % 2 else {'t': 'str'})
     return d
   if kind == 'field-' and t == 'dict' and d['fields']:
     d['fields'] = d['fields'][:-1]
